@@ -12,6 +12,7 @@ EXPLANATION = (
 ASSUMPTIONS = ["bounds: 2-3 groups, <= 7 tasks; cancellation is never issued re-entrantly from the group's own iterator/call site"]
 BUDGET = {"quick": 150, "thorough": 900}
 MON = ["C07", "C04", "C05"]
+QUICK_MAX_STATES = 30000  # three monitors per cell: the quick tier leaves the larger cells to the thorough tier
 
 
 def cells(tier):
